@@ -146,7 +146,7 @@ def run(ctx):
             ctx.bad('C05.4-second-reader', 'prefix', 'prefix is %s bytes converted with %s' % (plen, conv), ctx.where(B2), key='TABLE:framing:receive_message_from_read_half:prefix')
 
     # ---- clause 4: width tables per mode ---------------------------------------------------
-    ctx.rule('C05.4-width-tables', 'per FrameMode the prefix width agrees across length_prefix_size, frame_message, write_framed and read_framed (Handshake 2 bytes, Distribution 4 bytes, big-endian)', floor=8)
+    ctx.rule('C05.4-width-tables', 'per FrameMode the prefix width agrees across length_prefix_size, frame_message, write_framed and read_framed (Handshake 2 bytes, Distribution 4 bytes, big-endian)', floor=5)
     tables = {}
     adt = ctx.F.adts.get(FR + 'FrameMode')
     if not ctx.anchor(adt is not None, FR + 'FrameMode'):
@@ -163,7 +163,12 @@ def run(ctx):
         if B is None:
             continue
         mr = mode_regions(B)
-        if not ctx.anchor(mr is not None, path + ':match mode'):
+        if mr is None:
+            uses_table = any(is_call_to(t, FR + 'FrameMode::length_prefix_size') for bb, t in B.calls())
+            if uses_table:
+                ctx.ok('C05.4-width-tables', name + ':delegates', 'no per-mode branch: the width comes from length_prefix_size (checked above)', ctx.where(B))
+            else:
+                ctx.undecided('C05.4-width-tables', name, 'no `match mode` and no use of length_prefix_size: prefix width selection not recognised', ctx.where(B))
             continue
         sw, targets, els, excl = mr
         per = {}
@@ -215,6 +220,30 @@ def run(ctx):
                 ctx.ok('C05.4-width-tables', inst, '%d-byte big-endian prefix' % w)
             else:
                 ctx.bad('C05.4-width-tables', inst, 'prefix width %s, expected %d for %s mode (%s)' % (w, want[vn], vn, detail), key='TABLE:framing:%s' % inst)
+
+    # writers accept every message that fits the prefix
+    ctx.rule('C05.6-accepts-all-that-fit', 'no guard in a frame writer refuses a message whose length the prefix can express: at the site that writes an N-bit prefix the admissible length range reaches 2^N - 1', floor=4)
+    for name in ('frame_message', 'write_framed'):
+        B = P.B(fns[name])
+        if B is None:
+            continue
+        R = Ranges(B)
+        seen = {}
+        for bb, j, st in B.stmts():
+            if st['k'] == '=' and st['rv']['k'] == 'cast' and st['rv']['ck'] == 'IntToInt' and st['rv']['to'] in ('u16', 'u32') and st['rv']['from'] == 'usize':
+                c = canon(B, st['rv']['op'])
+                if c[0] != 'len':
+                    continue
+                rng = R.range_of(st['rv']['op'], bb)
+                top = (1 << (16 if st['rv']['to'] == 'u16' else 32)) - 1
+                k = seen.get(st['rv']['to'], 0) + 1
+                seen[st['rv']['to']] = k
+                inst = '%s:%s-prefix' % (name, st['rv']['to'])
+                if rng[1] >= top:
+                    ctx.ok('C05.6-accepts-all-that-fit', inst, 'lengths up to %d reach the prefix write' % top, ctx.where(B, ln=st['ln']))
+                else:
+                    ctx.bad('C05.6-accepts-all-that-fit', inst, 'a guard limits the length to %s before the %s prefix is written: messages of %s..%d bytes fit the prefix but are refused (the one-shot and the streaming writer then disagree)' % (
+                        rng[1], st['rv']['to'], rng[1] + 1, top), ctx.where(B, ln=st['ln']), key='DOM:framing:%s:refuses-fitting-length' % inst)
 
     # one-shot framer == streaming writer: prefix then body and nothing else
     ctx.rule('C05.4-writers-equal', 'frame_message and write_framed write prefix(len(data)) then data and nothing else, identically', floor=2)
